@@ -93,12 +93,13 @@ Qed.
 
 (* ---- data facts about one insertion below a real cell (p <> []) ---- *)
 Lemma padd_data : forall fuel p t P pt t' P', p <> [] -> free t -> padd fuel p t P pt = Some (t', P') ->
+  pbp P pt = [] -> ~ In pt (idx t p) -> pbp P' pt <> [] ->
   free t' /\ length P' = length P /\ (forall j, px P' j = px P j) /\
   Permutation (idx t' p) (pt :: idx t p) /\
   (forall j, j <> pt -> ~ In j (idx t p) -> pbp P' j = pbp P j) /\
   (pt < length P -> ~ In pt (idx t p) -> NoDup (idx t p) -> BP P t p -> BP P' t' p).
 Proof.
-  induction fuel as [|f IH]; intros p t P pt t' P' Hp Hfree H.
+  induction fuel as [|f IH]; intros p t P pt t' P' Hp Hfree H Hclr Hfresh Hins.
   - destruct t as [[q|n oct]|]; cbn in H; try discriminate. injection H as <- <-.
     split; [constructor|]. split; [apply len_setbp|]. split; [intro; apply px_setbp|]. split; [apply Permutation_refl|].
     split; [intros j Hj _; apply pbp_setbp_other; congruence|].
@@ -108,16 +109,20 @@ Proof.
     + (* a leaf is split *)
       cbn [PathModel.padd] in H.
       set (o1 := octf p (px P q)) in *. set (o2 := octf p (px P pt)) in *.
-      destruct (Nat.eqb o1 o2 && same (px P pt) (px P q)) eqn:G; [discriminate|].
+      destruct (Nat.eqb o1 o2 && same (px P pt) (px P q)) eqn:G; [injection H as <- <-; congruence|].
       set (oct0 := upd empty8 o1 (Some (Leaf q))) in *. set (P1 := setbp P q (p ++ [o1])) in *.
       destruct (padd f (p ++ [o2]) (nth o2 oct0 None) P1 pt) as [[d P2]|] eqn:A; [|discriminate].
       injection H as <- <-.
+      assert (Hqpt0 : q <> pt) by (intro e; apply Hfresh; unfold idx; cbn; left; exact e).
+      assert (Hclr1 : pbp P1 pt = []) by (unfold P1; rewrite pbp_setbp_other by exact Hqpt0; exact Hclr).
       assert (Ho1 : o1 < 8) by (apply Hoct8; exact Hp). assert (Ho2 : o2 < 8) by (apply Hoct8; exact Hp).
       assert (L0 : length oct0 = 8) by (unfold oct0; rewrite upd_len; reflexivity).
       assert (Hp2 : p ++ [o2] <> []) by (destruct p; discriminate).
       assert (Fc : free (nth o2 oct0 None)).
       { unfold oct0. rewrite nth_upd_cases. destruct (Nat.eqb o1 o2 && Nat.ltb o1 (length empty8)); [constructor|apply free_nth_empty8]. }
-      destruct (IH _ _ _ _ _ _ Hp2 Fc A) as (Fd & Ld & Xd & Pd & Bf & Bx).
+      assert (Hfresh1 : ~ In pt (idx (nth o2 oct0 None) (p ++ [o2]))).
+      { unfold oct0. rewrite nth_upd_cases. destruct (Nat.eqb o1 o2 && Nat.ltb o1 (length empty8)); [cbn; intros [e|[]]; congruence|rewrite nth_empty8; cbn; tauto]. }
+      destruct (IH _ _ _ _ _ _ Hp2 Fc A Hclr1 Hfresh1 Hins) as (Fd & Ld & Xd & Pd & Bf & Bx).
       assert (F0 : free (Some (Node 0%Z oct0))).
       { unfold oct0. apply free_upd; [apply free_empty8_node|constructor]. }
       (* leaves of oct0: just q in octant o1 *)
@@ -177,11 +182,14 @@ Proof.
     + (* descend into a node *)
       cbn [PathModel.padd] in H. set (o := octf p (px P pt)) in *.
       destruct (padd f (p ++ [o]) (nth o oct None) P pt) as [[d P1]|] eqn:A; [|discriminate].
-      injection H as <- <-.
+      destruct (pbp P1 pt) as [|b0 bs] eqn:Ebp; injection H as <- <-; [congruence|].
       assert (Ho : o < 8) by (apply Hoct8; exact Hp).
       inversion Hfree as [| |? ? Lo Fo]; subst.
       assert (Hp2 : p ++ [o] <> []) by (destruct p; discriminate).
-      destruct (IH _ _ _ _ _ _ Hp2 (Fo o) A) as (Fd & Ld & Xd & Pd & Bf & Bx).
+      assert (Hfresh1 : ~ In pt (idx (nth o oct None) (p ++ [o]))).
+      { intro Hin. apply Hfresh. unfold idx in *. rewrite lvo_node.
+        eapply Permutation_in; [apply Permutation_map, Permutation_sym, (lvl_split p oct o); lia|]. rewrite map_app. apply in_or_app. left. exact Hin. }
+      destruct (IH _ _ _ _ _ _ Hp2 (Fo o) A Hclr Hfresh1 ltac:(congruence)) as (Fd & Ld & Xd & Pd & Bf & Bx).
       assert (Sn : Permutation (lvl p (upd oct o d) 0) (lvo d (p ++ [o]) ++ lvl p (upd oct o None) 0)) by (apply lvl_upd_split; lia).
       assert (So : Permutation (lvl p oct 0) (lvo (nth o oct None) (p ++ [o]) ++ lvl p (upd oct o None) 0)) by (apply lvl_split; lia).
       split; [apply free_upd; [eapply free_node_any; exact Hfree|exact Fd]|]. split; [exact Ld|]. split; [exact Xd|].
@@ -218,5 +226,60 @@ Proof.
       split; [intros j Hj _; apply pbp_setbp_other; congruence|].
       intros Hpt _ _ _ r i Hin. cbn in Hin. destruct Hin as [Hin|[]]. injection Hin as <- <-.
       split; [apply pbp_setbp_same; exact Hpt|rewrite len_setbp; exact Hpt].
+Qed.
+
+(* splitting a leaf whose resident has other coordinates always inserts the new particle (it is never refused deeper) *)
+Lemma padd_leaf_inserts : forall fuel p q P pt t' P', padd fuel p (Some (Leaf q)) P pt = Some (t', P') ->
+  same (px P pt) (px P q) = false -> q <> pt -> pt < length P -> p <> [] -> pbp P' pt <> [].
+Proof.
+  induction fuel as [|f IH]; intros p q P pt t' P' H Hs Hq Hl Hp; cbn [PathModel.padd] in H; [discriminate|].
+  rewrite Hs, andb_false_r in H.
+  set (o1 := octf p (px P q)) in *. set (o2 := octf p (px P pt)) in *.
+  set (oct0 := upd empty8 o1 (Some (Leaf q))) in *. set (P1 := setbp P q (p ++ [o1])) in *.
+  destruct (padd f (p ++ [o2]) (nth o2 oct0 None) P1 pt) as [[d P2]|] eqn:A; [|discriminate].
+  injection H as <- <-.
+  assert (Hp2 : p ++ [o2] <> []) by (destruct p; discriminate).
+  unfold oct0 in A. rewrite nth_upd_cases in A. destruct (Nat.eqb o1 o2 && Nat.ltb o1 (length empty8)).
+  - eapply IH; [exact A| | | |exact Hp2].
+    + unfold P1. rewrite !px_setbp. exact Hs.
+    + exact Hq.
+    + unfold P1. rewrite len_setbp. exact Hl.
+  - rewrite nth_empty8, padd_none in A. injection A as <- <-.
+    rewrite pbp_setbp_same by (unfold P1; rewrite len_setbp; exact Hl). exact Hp2.
+Qed.
+
+(* a refused insertion (the back pointer of the new particle is still NULL) changed nothing *)
+Lemma padd_refused : forall fuel p t P pt t' P', p <> [] -> padd fuel p t P pt = Some (t', P') ->
+  ~ In pt (idx t p) -> pt < length P -> pbp P' pt = [] -> t' = t /\ P' = P.
+Proof.
+  induction fuel as [|f IH]; intros p t P pt t' P' Hp H Hfresh Hl Hnil.
+  - destruct t as [[q|n oct]|]; cbn in H; try discriminate. injection H as <- <-.
+    rewrite pbp_setbp_same in Hnil by exact Hl. congruence.
+  - destruct t as [[q|n oct]|].
+    + assert (Hq : q <> pt) by (intro e; apply Hfresh; unfold idx; cbn; left; exact e).
+      pose proof H as H0. cbn [PathModel.padd] in H.
+      destruct (Nat.eqb (octf p (px P q)) (octf p (px P pt)) && same (px P pt) (px P q)) eqn:G; [injection H as <- <-; auto|].
+      exfalso. destruct (same (px P pt) (px P q)) eqn:Es.
+      * rewrite andb_true_r in G.
+        (* different octants: the new particle gets its own leaf *)
+        set (o1 := octf p (px P q)) in *. set (o2 := octf p (px P pt)) in *.
+        set (oct0 := upd empty8 o1 (Some (Leaf q))) in *. set (P1 := setbp P q (p ++ [o1])) in *.
+        destruct (padd f (p ++ [o2]) (nth o2 oct0 None) P1 pt) as [[d P2]|] eqn:A; [|discriminate].
+        injection H as <- <-. unfold oct0 in A. rewrite nth_upd_cases in A. rewrite G in A. cbn [andb] in A.
+        rewrite nth_empty8, padd_none in A. injection A as <- <-.
+        rewrite pbp_setbp_same in Hnil by (unfold P1; rewrite len_setbp; exact Hl). destruct p; discriminate.
+      * apply (padd_leaf_inserts (S f) p q P pt t' P' H0 Es Hq Hl Hp). exact Hnil.
+    + cbn [PathModel.padd] in H. set (o := octf p (px P pt)) in *.
+      destruct (padd f (p ++ [o]) (nth o oct None) P pt) as [[d P1]|] eqn:A; [|discriminate].
+      destruct (pbp P1 pt) as [|b0 bs] eqn:Ebp; injection H as <- <-; [|congruence].
+      assert (Ho : o < 8) by (apply Hoct8; exact Hp).
+      destruct (Nat.lt_ge_cases o (length oct)) as [Hol|Hol].
+      * assert (Hfresh1 : ~ In pt (idx (nth o oct None) (p ++ [o]))).
+        { intro Hin. apply Hfresh. unfold idx in *. rewrite lvo_node.
+          eapply Permutation_in; [apply Permutation_map, Permutation_sym, (lvl_split p oct o); exact Hol|]. rewrite map_app. apply in_or_app. left. exact Hin. }
+        destruct (IH (p ++ [o]) _ P pt d P1 ltac:(destruct p; discriminate) A Hfresh1 Hl Ebp) as [_ EP]. split; [reflexivity|exact EP].
+      * rewrite nth_overflow in A by exact Hol. rewrite padd_none in A. injection A as <- <-.
+        rewrite pbp_setbp_same in Ebp by exact Hl. destruct p; discriminate.
+    + rewrite padd_none in H. injection H as <- <-. rewrite pbp_setbp_same in Hnil by exact Hl. congruence.
 Qed.
 End PB.
